@@ -67,6 +67,7 @@ class Scheduler(object):
     self.snapshot = None
     self.active = False
     self.glock = _th.Lock()          # protects `status` transitions against watchdog races
+    self.cur_mgr = 0                 # manager whose command the control script (tid 0) is executing
 
   # ------------------------------------------------------------------ registration
   def register(self, tid, ident=None):
@@ -160,7 +161,7 @@ class Scheduler(object):
         raise SchedAbort()
       return
     nxt = self.ctls[t]
-    self.steps.append([t, OPCODE[nxt.pending[0]], en])
+    self.steps.append([t, OPCODE[nxt.pending[0]], en, self.cur_mgr if t == 0 else getattr(nxt, "mgr", 0)])
     self.current = t
     if nxt is c:
       return
@@ -176,10 +177,11 @@ class Scheduler(object):
       raise SchedAbort()
 
   # ------------------------------------------------------------------ thread life cycle
-  def start_thread(self, tid, real_start):
+  def start_thread(self, tid, real_start, mgr=0):
     """Performed by the starter inside its `start` operation: launches the OS thread and lets it run
     (local code only) up to its first yield point, so that its pending operation is known."""
     c = self.register(tid)
+    c.mgr = mgr
     self._starting = c
     real_start()
     if not c.ready.acquire(timeout=WATCHDOG):
@@ -232,6 +234,13 @@ class Env(object):
     self.streams = []         # FakeStream objects in order of open
     self.terminated = 0
     self.players = []         # AudioThread objects in order of creation
+    self.pas = []             # FakePyAudio objects in order of creation: one per manager
+    self.event_mgr = []       # manager index of every entry of self.events
+    self.cur_mgr = 0          # manager whose command the control script is executing
+
+  def emit(self, entry, mgr):
+    self.events.append(entry)
+    self.event_mgr.append(mgr)
 
 _env = [None]                 # current run
 
@@ -321,7 +330,7 @@ class _Halting(object):
       obj.__dict__["_c17_halting"] = val
       if val:
         e = obj.__dict__["_c17_env"]
-        e.events.append(["halt", e.players.index(obj)])
+        e.emit(["halt", e.players.index(obj)], e.mgr_of_player(obj))
     obj.__dict__["_c17_env"].sched.op("halting_write", act)
 
 
@@ -336,17 +345,17 @@ class FakeStream(object):
 
   def stop_stream(self):
     def act():
-      self._env.events.append(["stop", self.idx])
+      self._env.emit(["stop", self.idx], self._pa.mgr)
     self._env.sched.op("stop_stream", act)
 
   def start_stream(self):
     def act():
-      self._env.events.append(["start", self.idx])
+      self._env.emit(["start", self.idx], self._pa.mgr)
     self._env.sched.op("start_stream", act)
 
   def close(self):
     def act():
-      self._env.events.append(["close", self.idx])
+      self._env.emit(["close", self.idx], self._pa.mgr)
       self.open = False
       self._pa._c17_streams.discard(self)
     self._env.sched.op("close_stream", act)
@@ -359,6 +368,9 @@ class FakePyAudio(object):
   def __init__(self):
     self._c17_streams = set()
     self._env = env()
+    self.mgr = len(self._env.pas)
+    self._env.pas.append(self)
+    self.terminated = 0
 
   @property
   def _streams(self):
@@ -370,7 +382,7 @@ class FakePyAudio(object):
       st = FakeStream(self, len(e.streams), kw)
       e.streams.append(st)
       self._c17_streams.add(st)
-      e.events.append(["open", st.idx])
+      e.emit(["open", st.idx], self.mgr)
       return st
     return self._env.sched.op("open", act)
 
@@ -378,7 +390,8 @@ class FakePyAudio(object):
     def act():
       e = self._env
       e.terminated += 1
-      e.events.append(["terminate"])
+      self.terminated += 1
+      e.emit(["terminate"], self.mgr)
     self._env.sched.op("terminate", act)
 
   def get_host_api_count(self):
@@ -390,7 +403,7 @@ def _write_stream(handle, frames, num_frames, exception_on_underflow=False):
   def act():
     st = e.streams[handle[1]]
     st.written.append((bytes(frames), num_frames))
-    e.events.append(["write", st.idx, len(st.written) - 1])
+    e.emit(["write", st.idx, len(st.written) - 1], st._pa.mgr)
   e.sched.op("write", act)
 
 
@@ -440,7 +453,7 @@ def install():
     def act():
       tid = len(e.sched.ctls)
       self.__dict__["_c17_tid"] = tid
-      e.sched.start_thread(tid, lambda: _th.Thread.start(self))
+      e.sched.start_thread(tid, lambda: _th.Thread.start(self), e.mgr_of_player(self))
     e.sched.op("start", act)
 
   def run(self):
@@ -479,7 +492,12 @@ def decode(b, dfmt):
   vals = _struct.unpack("%d%s" % (n, dfmt), b)
   if dfmt in "fd":
     vals = [v * FSCALE for v in vals]
-  return [int(v) if v == int(v) else 987654321 for v in vals]
+  def exact(v):
+    try:
+      return int(v) if v == int(v) else 987654321
+    except (ValueError, OverflowError):       # nan / inf
+      return 987654322
+  return [exact(v) for v in vals]
 
 
 class SchedSource(object):
@@ -508,6 +526,19 @@ def make_audio(kind, data):
   if kind == "stream":
     from audiolazy import Stream
     return Stream(data)
+  if kind.startswith("arr_"):          # array.array of some typecode, equal or not to the stream format
+    import array
+    tc = kind[4:]
+    if tc in "fd":
+      return array.array(tc, [float(v) for v in data])
+    assert all(v == int(v) for v in data), "integer array needs integral samples"
+    return array.array(tc, [int(v) for v in data])
+  if kind == "deque":
+    import collections
+    return collections.deque(data)
+  if kind in ("bytes", "bytearray"):
+    assert all(v == int(v) and 0 <= v < 256 for v in data)
+    return (bytes if kind == "bytes" else bytearray)([int(v) for v in data])
   if kind == "src":
     return SchedSource(data)
   if kind == "src_stream":
@@ -548,8 +579,20 @@ def run_schedule(wait, script, choose, dfmt="f", max_steps=4000, strategy="struc
   sched = Scheduler(choose, max_steps)
   e = Env(sched)
   _env[0] = e
-  aio = lazy_io.AudioIO(wait)                 # scheduler not active yet: primitives pass through
-  aio._threads = SchedList()
+  waits = list(wait) if isinstance(wait, (list, tuple)) else [wait]
+  aios = []
+  class_threads = lazy_io.AudioIO.__dict__.get("_threads", None)   # only if the class itself carries a list
+  for w in waits:
+    aio_ = lazy_io.AudioIO(w)                 # scheduler not active yet: primitives pass through
+    # the registry becomes a yield-point list WITHOUT changing who shares it: an instance attribute is
+    # wrapped per instance, a class-level list (shared by every manager) is wrapped once for the class
+    if "_threads" in aio_.__dict__:
+      aio_._threads = SchedList(aio_.__dict__["_threads"])
+    elif not isinstance(lazy_io.AudioIO._threads, SchedList):
+      lazy_io.AudioIO._threads = SchedList(lazy_io.AudioIO._threads)
+    aios.append(aio_)
+  e.aios = aios
+  e.mgr_of_player = lambda p: next((i for i, a in enumerate(aios) if a is p.__dict__.get("device_manager")), 0)
   main = sched.register(0, _th.get_ident())
   main.warm = True
 
@@ -557,12 +600,20 @@ def run_schedule(wait, script, choose, dfmt="f", max_steps=4000, strategy="struc
     tid = p.__dict__.get("_c17_tid")
     return 0 if tid is None else (2 if sched.ctls[tid].done else 1)     # new / running / done
 
-  def flags():
-    return [[status_of(p) == 1, bool(p.__dict__.get("_c17_halting", False))] for p in e.players]
+  def local_players(m):
+    return [p for p in e.players if e.mgr_of_player(p) == m]
 
-  def snapshot():
+  def flags(m):
+    return [[status_of(p) == 1, bool(p.__dict__.get("_c17_halting", False))] for p in local_players(m)]
+
+  def lidx(m, t):
+    lp = local_players(m)
+    return next((i for i, q in enumerate(lp) if q is t), 999)
+
+  def final_of(m):
+    aio = aios[m]
     pl = []
-    for p in e.players:
+    for p in local_players(m):
       st = p.__dict__.get("stream")
       lk = p.__dict__.get("lock")
       go = p.__dict__.get("go")
@@ -575,18 +626,59 @@ def run_schedule(wait, script, choose, dfmt="f", max_steps=4000, strategy="struc
                  "nframes": [n for _, n in st.written] if st is not None else [],
                  "nbytes": [len(b) for b, _ in st.written] if st is not None else [],
                  "open_kw": dict((k2, v2) for k2, v2 in sorted(st.kw.items())) if st is not None else {}})
-    pend = [-1 if (c.done or c.pending is None) else OPCODE[c.pending[0]] for c in sched.ctls]
+    pend = [-1 if (sched.ctls[0].done or sched.ctls[0].pending is None) else OPCODE[sched.ctls[0].pending[0]]]
+    for p in local_players(m):
+      tid = p.__dict__.get("_c17_tid")
+      if tid is not None:
+        c = sched.ctls[tid]
+        pend.append(-1 if (c.done or c.pending is None) else OPCODE[c.pending[0]])
     return {"players": pl, "finished": bool(aio.finished), "hlock": bool(aio.halting._locked),
             "mlock": bool(aio.lock._locked),
-            "threads": [e.players.index(t) for t in list.__iter__(aio._threads)],
-            "started": [e.players.index(t) for t in aio.__dict__.get("_started", [])],
-            "terminated": e.terminated, "pending": pend,
-            "events": [list(x) for x in e.events]}   # tear-down (finally clauses of aborted threads) adds more
+            "threads": [lidx(m, t) for t in list.__iter__(aio._threads)],
+            "started": [lidx(m, t) for t in getattr(aio, "_started", [])],
+            "terminated": e.pas[m].terminated if m < len(e.pas) else 0, "pending": pend}
+
+  def project(m):
+    """The run as manager m saw it: its own commands, players, device events (local numbering)."""
+    lp = local_players(m)
+    tid_local = {0: 0}
+    for i, p in enumerate(lp):
+      if p.__dict__.get("_c17_tid") is not None:
+        tid_local[p.__dict__["_c17_tid"]] = i + 1
+    steps = [[tid_local.get(t, 999), op, [tid_local[x] for x in en if x in tid_local], m]
+             for t, op, en, owner in sched.steps if owner == m]
+    sidx = {}
+    for st in e.streams:
+      if st._pa.mgr == m:
+        sidx[st.idx] = len(sidx)
+    evs = []
+    for ent, em in zip(e.events, e.event_mgr):
+      if em != m:
+        continue
+      ent = list(ent)
+      if ent[0] in ("open", "write", "stop", "start", "close"):
+        ent[1] = sidx.get(ent[1], 999)
+      elif ent[0] == "halt":
+        ent[1] = lidx(m, e.players[ent[1]])
+      evs.append(ent)
+    return {"steps": steps, "events": evs, "final": final_of(m)}
+
+  def snapshot():
+    snap = final_of(0)
+    snap["events"] = [list(x) for x in e.events]   # tear-down (finally clauses of aborted threads) adds more
+    if len(aios) > 1:
+      snap["mgrs"] = [project(m) for m in range(len(aios))]
+    return snap
 
   sched.on_end = snapshot
 
   def driver():
     for cmd in script:
+      m = 0
+      if cmd[0] == "@":                      # ["@", manager index, command]
+        m, cmd = cmd[1], cmd[2]
+      e.cur_mgr = sched.cur_mgr = m
+      aio = aios[m]
       k = cmd[0]
       if k in ("play", "playbad"):
         # ["play", chunk_size, channels, samples, dfmt, kind, how]: kind = argument kind of the audio
@@ -609,10 +701,10 @@ def run_schedule(wait, script, choose, dfmt="f", max_steps=4000, strategy="struc
           else:
             aio.play(data, chunk_size=cmd[1], channels=cmd[2], dfmt=fmt)
         except _th.ThreadError:
-          e.events.append(["play_raise"])
+          e.emit(["play_raise"], m)
       elif k in ("pause", "resume", "stop"):
-        if cmd[1] < len(e.players):
-          t = e.players[cmd[1]]
+        if cmd[1] < len(local_players(m)):
+          t = local_players(m)[cmd[1]]
           {"pause": t.pause, "resume": t.play, "stop": t.stop}[k]()
       elif k == "close":
         via = cmd[1] if len(cmd) > 1 else close_via      # how the manager is closed: the model's CClose
@@ -635,9 +727,9 @@ def run_schedule(wait, script, choose, dfmt="f", max_steps=4000, strategy="struc
               raise RuntimeError("the exception raised inside the with-block was swallowed")
           else:
             aio.close()
-          e.events.append(["close_ret", flags()])
+          e.emit(["close_ret", flags(m)], m)
         except AssertionError:
-          e.events.append(["assert_fail"])
+          e.emit(["assert_fail"], m)
 
   saved_default = lazy_io.chunks.default
   lazy_io.chunks.default = lazy_io.chunks[strategy]       # the documented way to pick the playing blockenizer
@@ -653,6 +745,8 @@ def run_schedule(wait, script, choose, dfmt="f", max_steps=4000, strategy="struc
       sched._end("exception")
     sched.main_finished()
   finally:
+    if class_threads is not None:
+      lazy_io.AudioIO._threads = class_threads      # un-wrap a class-level registry
     lazy_io.chunks.default = saved_default
     sched.active = False
     sched.aborting = True
@@ -668,5 +762,12 @@ def run_schedule(wait, script, choose, dfmt="f", max_steps=4000, strategy="struc
          "final": sched.snapshot}
   if status_extra:
     obs["exception"] = status_extra
+  if isinstance(snap, dict) and "mgrs" in snap:
+    obs["mgrs"] = snap.pop("mgrs")
+    for m, pr in enumerate(obs["mgrs"]):
+      fin = pr["final"]
+      alldone = fin["pending"][0] == -1 and all(p["status"] == 2 for p in fin["players"])
+      pr["status"] = obs["status"] if obs["status"] not in ("completed", "deadlock") else (
+        "completed" if alldone else "deadlock")
   _env[0] = None
   return obs
